@@ -108,7 +108,7 @@ SKIP = {
     "BarabasiAlbert_igraph", "Configuration", "WattsStrogatz", "GrowWeights", "randomly_rewire",
     "clear_cache", "cache_clear", "set_edge_list", "set_link_attribute", "set_node_attribute",
     "del_link_attribute", "del_node_attribute", "spreading", "nsi_spreading",
-    "distance_based_measures", "hamming_distance_from", "weighted_local_clustering",
+    "hamming_distance_from", "weighted_local_clustering",
     "edge_list", "method", "set_node_weight_type", "randomly_rewire_geomodel_I",
     "randomly_rewire_geomodel_II", "randomly_rewire_geomodel_III", "set_random_links_by_distance",
     "save_for_cgv", "shuffled_by_distance_copy", "ConfigurationModel", "update_resistances",
